@@ -306,6 +306,20 @@ func tasksOf(sc *sim.Scenario) [][]sim.Step {
 
 /* ---------- generation ---------- */
 
+// probability of the "big" scenario flavour (large shared tensors): rare in
+// stage A (each costs as much as ~200 ordinary scenarios and size-triggered
+// parallel code paths show under real parallelism), frequent in stage B
+var c20BigP = 0.004
+
+func init() {
+	if !sim.Instrumented() {
+		c20BigP = 0.15
+	}
+	if v := os.Getenv("QV_C20_BIG"); v != "" {
+		fmt.Sscan(v, &c20BigP)
+	}
+}
+
 func (c20) Generate(r *sim.Rand, tier string) *sim.Scenario {
 	sc := &sim.Scenario{Cfg: map[string]float64{}, Data: map[string][]float64{}}
 	sc.Cfg["rngseed"] = float64(r.Intn(1 << 30))
@@ -337,6 +351,21 @@ func (c20) Generate(r *sim.Rand, tier string) *sim.Scenario {
 		tracked := i > 0 && r.Bool(0.4)
 		sc.Steps = append(sc.Steps, sim.Step{C: sharedClient, Op: "tensorof", Out: sid, I: cpI(shape), F: randData(r, sim.NElems(shape), false), B: tracked})
 		sid++
+	}
+	// "big" flavour: shared tensors large enough for size-triggered code paths
+	// (a 32..40 square matrix: m*n*k >= 2^15; a matrix of >= 4096 elements)
+	big := r.Bool(c20BigP)
+	bigA, bigM := -1, -1
+	if big {
+		n := r.Range(32, 40)
+		sc.Steps = append(sc.Steps, sim.Step{C: sharedClient, Op: "tensorof", Out: sid, I: []int{n, n}, F: randData(r, n*n, false)})
+		bigA = sid
+		sid++
+		rows := r.Range(64, 70)
+		sc.Steps = append(sc.Steps, sim.Step{C: sharedClient, Op: "tensorof", Out: sid, I: []int{rows, 64}, F: randData(r, rows*64, false)})
+		bigM = sid
+		sid++
+		sc.Cfg["big"] = 1
 	}
 	sim.SeedLibraryRNG(uint64(sc.Cfg["rngseed"]))
 	total := uint64(0)
@@ -397,6 +426,34 @@ func (c20) Generate(r *sim.Rand, tier string) *sim.Scenario {
 			av = append(av, avail{st.Out, t.Shape()})
 		}
 		n := r.Range(3, maxSteps)
+		if big {
+			// few, heavy steps on the large shared tensors
+			n = r.Range(1, 3)
+			o.MaxElems, o.MaxDim = 5000, 70
+			forced := []sim.Step{
+				{C: tk, Op: "matmul", In: []int{bigA, bigA}},
+				{C: tk, Op: "sum", In: []int{bigM}, Out: -1},
+				{C: tk, Op: "mean", In: []int{bigM}, Out: -1},
+				{C: tk, Op: "std", In: []int{bigM}, Out: -1},
+				{C: tk, Op: "sumalong", In: []int{bigM}, I: []int{r.Intn(2)}},
+				{C: tk, Op: "transpose", In: []int{bigA}},
+				{C: tk, Op: "add", In: []int{bigM, bigM}},
+			}
+			for _, j := range r.Perm(len(forced))[:r.Range(1, 3)] {
+				st := forced[j]
+				if st.Out != -1 {
+					st.Out = ids.New()
+				}
+				res := pool.Apply(st)
+				if res.Err != nil {
+					sim.Bug("C20 generator: forced big step failed: %v", res.Err)
+				}
+				if res.T != nil {
+					record(st, res.T, st.In)
+				}
+				steps = append(steps, st)
+			}
+		}
 		for k, fails := 0, 0; k < n && fails < 40; {
 			x := r.Intn(100)
 			switch {
@@ -630,6 +687,9 @@ func (c20) Generate(r *sim.Rand, tier string) *sim.Scenario {
 		bpMarks = append(bpMarks, tr2.marks)
 	}
 	/* preemption plan */
+	if big && schedMode == 0 {
+		schedMode = 1 // fingerprints of large shared tensors at every switch: keep the plan short
+	}
 	sc.Cfg["first"] = float64(r.Intn(ntasks))
 	T := int(total)
 	if T < 1 {
@@ -721,6 +781,9 @@ func (prop c20) Execute(sc *sim.Scenario) *sim.Outcome {
 	/* solo runs */
 	solo := make([]*trun, len(tasks))
 	soloSteps := make([]uint64, len(tasks))
+	sim.ClearForeign()
+	sim.SetOwner(sim.CurrentGID())
+	defer sim.SetOwner(0)
 	for i, steps := range tasks {
 		sim.SeedLibraryRNG(seed)
 		e, bad := newEnv20(sc)
@@ -741,6 +804,11 @@ func (prop c20) Execute(sc *sim.Scenario) *sim.Outcome {
 			out.Fail("shared-state-changed", "task %d running alone changed the state of a shared object (a forward computation wrote to a tensor / layer another task can see)", i)
 			return fin()
 		}
+	}
+	if sim.ForeignSeen() {
+		out.Probes["stage-A-not-run-library-goroutines"]++
+		out.Discard = "library-goroutines"
+		return out
 	}
 	/* interleaved run */
 	sim.SeedLibraryRNG(seed)
@@ -788,7 +856,7 @@ func (prop c20) Execute(sc *sim.Scenario) *sim.Outcome {
 			}
 		}
 	}
-	if s.Foreign {
+	if s.Foreign || sim.ForeignSeen() {
 		out.Probes["stage-A-not-run-foreign-goroutine"]++
 		out.Discard = "library-goroutines"
 		return out
